@@ -32,6 +32,7 @@ type space struct {
 	delays  []int
 	watch   []int
 	dry     []bool
+	pol     []bool // default scheduler policy: false = oldest enabled thread first, true = newest first
 	noEnv   string
 	expiry  bool
 	force   bool
@@ -45,8 +46,8 @@ func spaces(prop string, thorough bool) []space {
 	three := [][]string{{"A", "B", "A"}, {"A", "A", "B"}, {"A", "B", "C"}, {"A", "A", "A"}}
 	if prop == "C06" {
 		s := []space{
-			{name: "q-P1-D1", uploads: []bool{false, true}, adds: append(append([][]string{}, two...), three[0], three[2]), batch: []int{1, 2}, workers: []int{1, 2}, retries: []int{1}, delays: []int{0}, watch: []int{1, 2}, dry: []bool{false}, noEnv: "duration,expiry", p: 1, d: 1, sum: -1},
-			{name: "q-P2-D0", uploads: []bool{false}, adds: two, batch: []int{1, 2}, workers: []int{1, 2}, retries: []int{1}, delays: []int{0}, watch: []int{1}, dry: []bool{false, true}, noEnv: "duration,expiry", p: 2, d: 0, sum: -1},
+			{name: "q-P1-D1", uploads: []bool{false, true}, adds: append(append([][]string{}, two...), three[0]), batch: []int{1, 2}, workers: []int{1, 2}, retries: []int{1}, delays: []int{0}, watch: []int{1}, dry: []bool{false}, noEnv: "duration,expiry", p: 1, d: 1, sum: -1},
+			{name: "q-P2-D0", uploads: []bool{false}, adds: append(append([][]string{}, two...), three[0]), batch: []int{1, 2}, workers: []int{1, 2}, retries: []int{1}, delays: []int{0}, watch: []int{1, 2}, dry: []bool{false, true}, noEnv: "duration,expiry", p: 2, d: 0, sum: -1},
 			{name: "q-P0-D2", uploads: []bool{false, true}, adds: append(append([][]string{}, two...), three[0]), batch: []int{1, 2}, workers: []int{1, 2}, retries: []int{1}, delays: []int{0}, watch: []int{1}, dry: []bool{false}, noEnv: "duration,expiry", p: 0, d: 2, sum: -1},
 		}
 		if thorough {
@@ -86,8 +87,13 @@ func runFor(prop string, sp space) vx.RunFunc {
 		cfg.MaxDelay = sp.delays[x.In(len(sp.delays))]
 		cfg.Watchers = sp.watch[x.In(len(sp.watch))]
 		cfg.DryRun = sp.dry[x.In(len(sp.dry))]
+		pol := sp.pol
+		if len(pol) == 0 {
+			pol = []bool{false, true}
+		}
+		cfg.NewestFirst = pol[x.In(len(pol))]
 		obs := tq.VerifRunQueue(cfg, chooser{x})
-		cfgs := fmt.Sprintf("up=%v adds=%s batch=%d workers=%d retries=%d delay=%d watchers=%d dry=%v", cfg.Upload, strings.Join(cfg.Adds, ""), cfg.BatchSize, cfg.Workers, cfg.MaxRetries, cfg.MaxDelay, cfg.Watchers, cfg.DryRun)
+		cfgs := fmt.Sprintf("up=%v adds=%s batch=%d workers=%d retries=%d delay=%d watchers=%d dry=%v newestfirst=%v", cfg.Upload, strings.Join(cfg.Adds, ""), cfg.BatchSize, cfg.Workers, cfg.MaxRetries, cfg.MaxDelay, cfg.Watchers, cfg.DryRun, cfg.NewestFirst)
 		r := vx.Result{Transitions: int64(obs.Steps)}
 		// outcome class: what happened to each object + error classes
 		var oc []string
